@@ -137,7 +137,9 @@ def bnd_mask(ast):
 def coq_term(case, obs):
     """the final output step by step, AND every tapped boundary against Boundaries.bnd_pipe (tap order = tap id)"""
     if case.get('errthru'):
-        return 'MCSkip'
+        # the trace is not well-formed in the model's sense (the key is created again while live), so no theorem
+        # speaks about it; the slot-level model is still compared on the final output
+        return muxlib.coq_muxcase(case['ast'], case['trace'], obs)
     base = muxlib.coq_muxcase(case['ast'], case['trace'], obs)
     if not base.startswith('MC '):
         return base
